@@ -8,10 +8,12 @@ Python counterparts (the tree WITH the repairs F-C07, F-C07b, F-C07c):
 * `TaxBenefitSystem.get_parameters_at_instant` (`functools.lru_cache`, keyed by `(self, instant)`,
   `maxsize = 128`, ONE cache for the whole process: a baseline and its reforms share it) ↦ `viewAt`
   on a `World` (`memo`, `memoTouch`, `cacheSize`)
-* `TaxBenefitSystem.load_parameters`                    ↦ `Op.reload`   (tree replaced, memo emptied)
+* `TaxBenefitSystem.load_parameters`                    ↦ `Op.reload`   (tree built, `preprocess_parameters`
+  hook run, tree replaced, memo emptied — in that order)
 * `Reform.__init__` (`self.parameters = baseline.parameters`) ↦ `Op.newReform`
 * `Reform.modify_parameters` (deep copy of the reform's OWN current tree — successive modifiers
-  accumulate, repair C14e —, modifier, `isinstance` test, replacement, `cache_clear()`)                          ↦ `Op.modify`
+  accumulate, repair C14e —, modifier (a `ModProg`: it may read the process while it runs), `isinstance`
+  test, replacement, and only then `cache_clear()`)                          ↦ `Op.modify`
 * `parameters.a.b(instant)` / `get_at_instant`          ↦ `readTreeAt` (`pdescend`, then `atInstant`)
 * `view.a.b`, `ParameterNodeAtInstant.__getattr__`      ↦ `sdescend`
 * `Simulation._run_formula`: `parameters_at = trace_parameters_at_instant | get_parameters_at_instant`
@@ -209,6 +211,58 @@ def isNode : PNode V → Bool
 def setTree (systems : List (SysRec V)) (s : Nat) (t : PNode V) : List (SysRec V) :=
   systems.modify s (fun r => { r with tree := some t })
 
+inductive Obs (V : Type) where
+  /-- a read: the value (`ok none` = Python's `None`) and what the tracer recorded -/
+  | value (r : Except String (Option (Snap V))) (log : List (LogEntry V))
+  | created (id : Nat)
+  | done
+  | failed (msg : String)
+
+/-- a read of some system of the process, through one of the routes -/
+inductive Read where
+  /-- `system.get_parameters_at_instant(instant).<path>` -/
+  | view (s form : Nat) (d : Int) (path : List String)
+  /-- `system.parameters.<path>(instant)` -/
+  | tree (s : Nat) (path : List String) (d : Int)
+  /-- inside a formula of a simulation on `s`: `parameters(<instant>).<path>` -/
+  | formula (s : Nat) (traced : Bool) (form : Nat) (d : Int) (path : List String)
+
+/-- one read: the state after it (only the memo can change) and what the caller observes -/
+def doRead (w : World V) : Read → World V × Obs V
+  | .view s form d path =>
+    match viewAt w s form d with
+    | none => (w, .failed "no such system")
+    | some (w', root) => (w', .value (navView root path) [])
+  | .tree s path d =>
+    match w.systems[s]? with
+    | none => (w, .failed "no such system")
+    | some r =>
+      match r.tree with
+      | none => (w, .value (.error "TypeError: None") [])
+      | some t => (w, .value (readTreeAt t path d) [])
+  | .formula s traced form d path =>
+    match viewAt w s form d with
+    | none => (w, .failed "no such system")
+    | some (w', root) =>
+      if traced then
+        let (r, log) := navTraced d root path []
+        (w', .value r log)
+      else (w', .value (navView root path) [])
+
+/-- What a user function called in the middle of a modification (a reform's modifier function, the
+    `preprocess_parameters` hook of `load_parameters`) can do to the process: read any system through
+    any route, any number of times, each read chosen from what the earlier ones returned, and finally
+    return a tree (or raise). The edits it makes to the tree it was handed are edits of a private copy:
+    they are part of the result, not of the process state. -/
+inductive ModProg (V : Type) where
+  | ret (r : Except String (PNode V))
+  | read (rd : Read) (k : Obs V → ModProg V)
+
+/-- running such a function: its reads go through the memo of the process, in order -/
+def runProg (w : World V) : ModProg V → World V × Except String (PNode V)
+  | .ret r => (w, r)
+  | .read rd k => runProg (doRead w rd).1 (k (doRead w rd).2)
+
 inductive Op (V : Type) where
   /-- `system.get_parameters_at_instant(instant).<path>` -/
   | readView (s form : Nat) (d : Int) (path : List String)
@@ -218,39 +272,30 @@ inductive Op (V : Type) where
   | readFormula (s : Nat) (traced : Bool) (form : Nat) (d : Int) (path : List String)
   /-- `SomeReform(baseline)` (the body of `apply()` is the operations that follow) -/
   | newReform (b : Nat)
-  /-- `reform.modify_parameters(f)`; `f` may raise -/
-  | modify (s : Nat) (f : PNode V → Except String (PNode V))
-  /-- `system.load_parameters(dir)` where `dir` holds the children `cs` -/
-  | reload (s : Nat) (cs : List (String × PNode V))
+  /-- `reform.modify_parameters(f)`: `f` receives the copy of the reform's tree, may read the process
+      while it runs, may raise -/
+  | modify (s : Nat) (f : PNode V → ModProg V)
+  /-- `system.load_parameters(dir)` where `dir` holds the children `cs`; `hook` is the system's
+      `preprocess_parameters` (the only user code that runs inside `load_parameters`; `noHook` when
+      the attribute is `None`) -/
+  | reload (s : Nat) (cs : List (String × PNode V)) (hook : PNode V → ModProg V)
 
-inductive Obs (V : Type) where
-  /-- a read: the value (`ok none` = Python's `None`) and what the tracer recorded -/
-  | value (r : Except String (Option (Snap V))) (log : List (LogEntry V))
-  | created (id : Nat)
-  | done
-  | failed (msg : String)
+/-- a modifier that reads nothing -/
+def pureMod (f : PNode V → Except String (PNode V)) : PNode V → ModProg V := fun t => .ret (f t)
 
-/-- one operation: the new state of the process and what the caller observes -/
+/-- `preprocess_parameters is None` -/
+def noHook : PNode V → ModProg V := fun t => .ret (.ok t)
+
+/-- One operation: the new state of the process and what the caller observes. `modify` and `reload`
+    are the sub-steps the code performs, IN THE CODE'S ORDER: (1) take the input tree (deep copy of the
+    reform's own tree / the tree built from the directory); (2) run the user function, whose reads hit
+    the memo while the system still has its FORMER tree; (3) install the returned tree and only then
+    empty the memo. Emptying the memo before (2) would let a read made during (2) re-memoise a view of
+    the former tree that survives the installation (`stepClearFirst` below shows it). -/
 def step (w : World V) : Op V → World V × Obs V
-  | .readView s form d path =>
-    match viewAt w s form d with
-    | none => (w, .failed "no such system")
-    | some (w', root) => (w', .value (navView root path) [])
-  | .readTree s path d =>
-    match w.systems[s]? with
-    | none => (w, .failed "no such system")
-    | some r =>
-      match r.tree with
-      | none => (w, .value (.error "TypeError: None") [])
-      | some t => (w, .value (readTreeAt t path d) [])
-  | .readFormula s traced form d path =>
-    match viewAt w s form d with
-    | none => (w, .failed "no such system")
-    | some (w', root) =>
-      if traced then
-        let (r, log) := navTraced d root path []
-        (w', .value r log)
-      else (w', .value (navView root path) [])
+  | .readView s form d path => doRead w (.view s form d path)
+  | .readTree s path d => doRead w (.tree s path d)
+  | .readFormula s traced form d path => doRead w (.formula s traced form d path)
   | .newReform b =>
     match w.systems[b]? with
     | none => (w, .failed "no such system")
@@ -264,17 +309,33 @@ def step (w : World V) : Op V → World V × Obs V
       | some _ =>
         match r.tree with
         | none => (w, .failed "no parameters")
-        | some t =>                                   -- `copy.deepcopy(self.parameters)`: modifiers accumulate
-          match f t with
-          | .error e => (w, .failed e)                -- the modifier raised: nothing replaced
-          | .ok t' =>
+        | some t =>                                   -- (1) `copy.deepcopy(self.parameters)`: modifiers accumulate
+          match runProg w (f t) with                  -- (2) `modifier_function(copy)`, reads included
+          | (w1, .error e) => (w1, .failed e)         -- the modifier raised: nothing replaced, nothing cleared
+          | (w1, .ok t') =>
             if isNode t' then                         -- `isinstance(reform_parameters, ParameterNode)`
-              ({ systems := setTree w.systems s t', memo := [] }, .done)
-            else (w, .done)                           -- `return ValueError(…)`: silently nothing
-  | .reload s cs =>
+              ({ systems := setTree w1.systems s t', memo := [] }, .done)   -- (3) install, then clear
+            else (w1, .done)                          -- `return ValueError(…)`: silently nothing
+  | .reload s cs hook =>
     match w.systems[s]? with
     | none => (w, .failed "no such system")
-    | some _ => ({ systems := setTree w.systems s (.node cs), memo := [] }, .done)
+    | some _ =>
+      match runProg w (hook (.node cs)) with          -- `ParameterNode("", directory_path=…)`, then the hook
+      | (w1, .error e) => (w1, .failed e)
+      | (w1, .ok t') => ({ systems := setTree w1.systems s t', memo := [] }, .done)
+
+/-- NOT the code's order (kept to show that the order matters): the memo is emptied BEFORE the
+    modifier runs, and not after the tree is installed. -/
+def stepClearFirst (w : World V) (s : Nat) (f : PNode V → ModProg V) : World V :=
+  match w.systems[s]? with
+  | none => w
+  | some r =>
+    match r.tree with
+    | none => w
+    | some t =>
+      match runProg { w with memo := [] } (f t) with
+      | (w1, .error _) => w1
+      | (w1, .ok t') => if isNode t' then { w1 with systems := setTree w1.systems s t' } else w1
 
 /-- a finite history -/
 def run (w : World V) : List (Op V) → World V
@@ -287,7 +348,7 @@ def World.init : World V := ⟨[⟨none, none⟩], []⟩
 /-- the system an operation replaces the tree of -/
 def Op.target : Op V → Option Nat
   | .modify s _ => some s
-  | .reload s _ => some s
+  | .reload s _ _ => some s
   | .readView .. => none
   | .readTree .. => none
   | .readFormula .. => none
